@@ -126,7 +126,7 @@ def to_labels(kind, plog, connect_failed=None):
         elif lab == 'DropChannelClose':
             if prog[a] is not None: cstep(a, 'ChanDrop')
         elif lab == 'Join':
-            if arg == 1: cstep(0, 'JoinW')
+            if arg == 1 and prog[0] is not None: cstep(0, 'JoinW')
         elif lab == 'CloseRet':
             flush(a); prog[a] = None
             emit([9, a], a == 1)
@@ -146,7 +146,13 @@ def to_labels(kind, plog, connect_failed=None):
                 emit([17, 1, k], True)
             else:
                 emit([17, 0 if arg == 0 else 2, 0], True)
-        elif lab == 'ChkClosing': emit([18, arg], True)
+        elif lab == 'ChkClosing':
+            # the loop's test follows a select time-out or a read that returned b''; the other read of the flag is
+            # run()'s exception handler choosing the error class handed to the listeners (not a label of the model)
+            pw = None
+            for (l2, a2, w2) in reversed(plog[:i]):
+                if w2 and l2 not in ('Cb', 'Eb', 'Deliver', 'FailReq'): pw = (l2, a2); break
+            if pw in (('Select', 0), ('Read', 0)): emit([18, arg], True)
         elif lab == 'Dispatch':
             # does this callback round call close() on the worker thread?
             cbclose = False
@@ -155,13 +161,12 @@ def to_labels(kind, plog, connect_failed=None):
                 if l2 == 'CloseCall': cbclose = True; break
                 if l2 in ('Dispatch', 'SelectBegin', 'ErrBroadcast', 'Exit'): break
             todo[0] = max(0, todo[0] - 1)
-            if cbclose: emit([21], True)
+            code = 21 if cbclose else 19
+            r = msg_rid.get(arg)
+            if r is not None and r in accepted and r not in answered:
+                answered.add(r); emit([code, [r]], True)
             else:
-                r = msg_rid.get(arg)
-                if r is not None and r in accepted and r not in answered:
-                    answered.add(r); emit([19, [r]], True)
-                else:
-                    emit([19, []], True)
+                emit([code, []], True)
         elif lab == 'ErrBroadcast':
             lw = last_w[0]
             clean = lw is not None and ((lw[0] == 18 and lw[1] == 1) or (lw[0] == 17 and lw[1] == 2))
@@ -223,7 +228,7 @@ def scenario(case, files):
     r = Run()
     from ncclient.manager import Manager
     dh = p.device_handler()
-    if path in ('close', 'close_twice', 'race_reply', 'race_submit', 'peer_drop', 'close_in_callback'):
+    if path in ('close', 'close_twice', 'race_reply', 'race_read', 'race_submit', 'peer_drop', 'close_in_callback'):
         r.s, r.peer, err = opn(rpc='hold')
         assert err is None, err
         r.s._plog_add('HelloOk')
@@ -240,6 +245,20 @@ def scenario(case, files):
             th = threading.Thread(target=r.peer.release); th.start()
             if case.get('delay'): time.sleep(case['delay'])
             r.s.close(); r.t_ret = p.now(); th.join()
+        elif path == 'race_read':
+            # the worker is between select (ready) and recv when close() closes the handle under it
+            r.s.at_gate.clear(); gate = threading.Event(); r.s.read_gate = gate
+            r.peer.release(1)
+            r.s.at_gate.wait(2)
+            th = threading.Thread(target=r.s.close); th.start()
+            t0 = p.now()
+            while p.now() - t0 < 2:
+                with r.s._plock:
+                    if any(l[0] in ('SockClose', 'TransportClose') and not l[2] for l in r.s._plog): break
+                time.sleep(0.002)
+            time.sleep(case.get('delay', 0.01))
+            r.s.read_gate = None; gate.set()
+            th.join(); r.t_ret = p.now()
         elif path == 'race_submit':
             stop = threading.Event(); R = p.probe_rpc_class()
             from ncclient.transport.errors import TransportError
@@ -377,7 +396,6 @@ def observe(case, r):
         o['exit_delay'] = round(p.now() - r.t_ret, 3)
     if peer is not None:
         while peer.eof_at is None and not peer.closed_own and not peer.done.is_set() and p.now() < t_end: time.sleep(0.005)
-        if peer.eof_at is None and not peer.closed_own: peer.done.wait(max(0, t_end - p.now()))
         o['peer_eof'] = peer.eof_kind if peer.eof_at is not None else ('peer-closed-first' if peer.closed_own else None)
     srv = r.server
     if srv is not None and hasattr(srv, 'transport_eof_at'):          # ssh: the server transport went down
@@ -515,6 +533,8 @@ def gen_cases(kind, rng, thorough):
         cs.append(dict(transport=kind, path='close', pending=n))
         cs.append(dict(transport=kind, path='peer_drop', pending=n))
         if n: cs.append(dict(transport=kind, path='race_reply', pending=n, delay=rng.choice([0, 0, 0.001, 0.003])))
+    for n in (1, 2, 3):
+        cs.append(dict(transport=kind, path='race_read', pending=n))
     cs.append(dict(transport=kind, path='close_twice', pending=1))
     cs.append(dict(transport=kind, path='race_submit', pending=1))
     for n in (1, 2):
